@@ -69,6 +69,8 @@ type RunConfig struct {
 	SleepSets    bool
 	Solver       string // "" = z3, "cvc5"
 	OneTrail     []int  // debugging: run exactly this decision vector
+	Canonical    bool   // one canonical schedule (run-to-block, lowest goroutine first): schedules are not the subject
+	Opaque       []string // external functions replaced by 'returns zero values' (recorded as stubs)
 	Sequential   bool // harness is single-goroutine (native replay possible)
 	Params       map[string]int
 }
